@@ -26,7 +26,12 @@ ALL_CFGS = ["default", "release", "fromstr", "demo"]
 PROPS = {
     "C04": ("c04", ["default"], ALL_CFGS),
     "C01": ("text", ["default"], ALL_CFGS),
+    "C06": ("layout", ["default"], ALL_CFGS),
     "C07": ("text", ["default"], ALL_CFGS),
+    "C08": ("layout", ["default"], ALL_CFGS),
+    "C09": ("layout", ["default"], ALL_CFGS),
+    "C10": ("layout", ["default"], ALL_CFGS),
+    "C11": ("layout", ["default"], ALL_CFGS),
     "C12": ("strings", ["default"], ALL_CFGS),
     "C13": ("lexer_rules", ["default"], ALL_CFGS),
     "C14": ("parse_cov", ["default"], ALL_CFGS),
